@@ -31,6 +31,9 @@ func HRP(t *rapid.T, n int) string {
 	return string(b)
 }
 
+// KnownHRPs are network prefixes in actual use (IOTA, Shimmer, Bitcoin, Lightning, Litecoin, Cosmos, Cardano).
+var KnownHRPs = []string{"iota", "atoi", "smr", "rms", "bc", "tb", "bcrt", "lnbc", "ltc", "cosmos", "addr", "stake", "test"}
+
 // Symbols draws n 5-bit symbols.
 func Symbols(t *rapid.T, n int) []byte {
 	s := make([]byte, n)
@@ -57,11 +60,19 @@ func Valid(t *rapid.T, wholeBytes bool, over bool) (s, hrp string, syms []byte) 
 	default:
 		hl = rapid.IntRange(41, 83).Draw(t, "hl")
 	}
+	known := ""
+	if h.Pick(t, "knownhrp", 7, 1) == 1 { // prefixes an implementation may know by name
+		known = h.OneOf(t, "khrp", KnownHRPs...)
+		hl = len(known)
+	}
 	room := max - hl - 7 // symbols that still fit
 	if room < 0 {
 		room = 0
 	}
 	hrp = HRP(t, hl)
+	if known != "" {
+		hrp = known
+	}
 	if wholeBytes {
 		nb := rapid.IntRange(0, room*5/8).Draw(t, "nb")
 		data := rapid.SliceOfN(rapid.Byte(), nb, nb).Draw(t, "data")
@@ -119,8 +130,11 @@ func FoldTrap(t *rapid.T, s string) string {
 
 // Edit applies one random edit (substitute / insert / delete / duplicate / truncate / fold trap) to s.
 func Edit(t *rapid.T, s string) string {
-	if h.Pick(t, "trapk", 5, 1) == 1 {
+	switch h.Pick(t, "trapk", 10, 2, 1) {
+	case 1:
 		return FoldTrap(t, s)
+	case 2:
+		return Frame(t, s)
 	}
 	pos := 0
 	if len(s) > 0 {
@@ -148,8 +162,9 @@ func Edit(t *rapid.T, s string) string {
 			return repl
 		}
 		return s[:pos] + repl + s[pos+1:]
-	case 1: // insert
-		return s[:pos] + repl + s[pos:]
+	case 1: // insert, at any of the len(s)+1 places (after the last character too)
+		ipos := rapid.IntRange(0, len(s)).Draw(t, "ipos")
+		return s[:ipos] + repl + s[ipos:]
 	case 2: // delete
 		if len(s) == 0 {
 			return s
@@ -163,6 +178,25 @@ func Edit(t *rapid.T, s string) string {
 	default: // truncate
 		return s[:pos]
 	}
+}
+
+// Framing is what surrounds a value that was read from a line, a field or a C string.
+var Framing = []string{"\n", "\r\n", "\r", " ", "\t", "\x00", "\v", "\f", "\u00a0", "\u2003", "\u2028", "\ufeff", "\"", "'", ",", ";", "=", "\\", "n", "r"}
+
+// Frame puts one or two pieces of framing (line ends, blanks, NUL, Unicode spaces, a byte order mark,
+// quotes, separators) before and/or after s.
+func Frame(t *rapid.T, s string) string {
+	f := h.OneOf(t, "frame", Framing...)
+	if h.Pick(t, "frame2", 3, 1) == 1 {
+		f += h.OneOf(t, "frameb", Framing...)
+	}
+	switch h.Pick(t, "framewhere", 3, 1, 1) {
+	case 0:
+		return s + f
+	case 1:
+		return f + s
+	}
+	return f + s + f
 }
 
 // FlipCase flips the case of one ASCII letter of s (if any); returns s unchanged otherwise.
